@@ -50,10 +50,36 @@ pub fn write_entity(e: Entity, out: &mut Vec<u8>) {
     }
 }
 
+thread_local! {
+    /// Tick the simulated server started from. The simulator's bookkeeping uses ticks relative to it
+    /// (so that its own arithmetic is plain integer arithmetic wherever the run sits in the 32-bit
+    /// tick range, including across the wrap point); raw values are kept where the library's view
+    /// of a tick matters.
+    static ORIGIN: std::cell::Cell<u32> = const { std::cell::Cell::new(0) };
+}
+
+pub fn set_origin(o: u32) {
+    ORIGIN.with(|c| c.set(o));
+}
+
+/// Raw wire/library tick -> tick relative to the run's origin. Raw 0 is the library's "no tick yet"
+/// value (the simulator never lets the server use tick 0 in a run that wraps) and stays 0.
+pub fn rel(raw: u32) -> u32 {
+    if raw == 0 { 0 } else { raw.wrapping_sub(ORIGIN.with(|c| c.get())) }
+}
+
+/// Inverse of [`rel`] for real ticks.
+pub fn raw(rel: u32) -> u32 {
+    rel.wrapping_add(ORIGIN.with(|c| c.get()))
+}
+
 #[derive(Debug, Clone)]
 pub struct MutateMsg {
+    /// relative to the run's origin, see [`rel`]
     pub update_tick: u32,
     pub tick: u32,
+    pub raw_update_tick: u32,
+    pub raw_tick: u32,
     pub count: Option<u64>,
     pub index: u16,
     /// Bytes before the first entity record.
@@ -100,7 +126,7 @@ pub fn mutate_msg(b: &[u8], track: bool) -> Option<MutateMsg> {
         }
         entities.push((e, off - start));
     }
-    Some(MutateMsg { update_tick: ut as u32, tick: t as u32, count, index, header_len, entities, trailing })
+    Some(MutateMsg { update_tick: rel(ut as u32), tick: rel(t as u32), raw_update_tick: ut as u32, raw_tick: t as u32, count, index, header_len, entities, trailing })
 }
 
 pub const FLAG_MAPPINGS: u8 = 1;
@@ -108,11 +134,15 @@ pub const FLAG_DESPAWNS: u8 = 2;
 pub const FLAG_REMOVALS: u8 = 4;
 pub const FLAG_CHANGES: u8 = 8;
 
-/// Header of an update message: `flags(u8) | tick`.
+/// Header of an update message: `flags(u8) | tick` (tick relative to the run's origin).
 pub fn update_header(b: &[u8]) -> Option<(u8, u32, usize)> {
     let flags = *b.first()?;
     let (t, n) = varint(&b[1..])?;
-    Some((flags, t as u32, 1 + n))
+    Some((flags, rel(t as u32), 1 + n))
+}
+
+pub fn update_header_raw_tick(b: &[u8]) -> Option<u32> {
+    varint(b.get(1..)?).map(|(t, _)| t as u32)
 }
 
 /// Acknowledgement message: sequence of u16 le mutate indices.
@@ -123,7 +153,11 @@ pub fn acks(b: &[u8]) -> Vec<u16> {
 /// Dependent server event: `tick | payload`. Returns (tick, offset of payload).
 pub fn event_stamp(b: &[u8]) -> Option<(u32, usize)> {
     let (t, n) = varint(b)?;
-    Some((t as u32, n))
+    Some((rel(t as u32), n))
+}
+
+pub fn event_stamp_raw(b: &[u8]) -> Option<u32> {
+    varint(b).map(|(t, _)| t as u32)
 }
 
 pub fn find_sub(hay: &[u8], needle: &[u8]) -> bool {
